@@ -495,6 +495,15 @@ def _run_history(ctx, lib, h, msg, comp, use_cpp):
         out.append(W.decrypt(ct, msk=ex.msk))
         pre = W.precompute(ex.params, attrs)
         out.append(W.blob_bytes(pre, 5))
+        # adjust_precomputed between the list and its own first half and back: the shim hands two lists of which one is a prefix of
+        # the other to the function as two views of one array (same pointer, different lengths), as a caller would
+        fx = fixed_of(k["pattern"])
+        half = Attrs(fx[:len(fx) // 2])
+        pre_adj = W.precompute(ex.params, attrs)
+        W.adjust_pre(pre_adj, ex.params, attrs, half)
+        out.append(W.blob_bytes(pre_adj, 5))
+        W.adjust_pre(pre_adj, ex.params, half, attrs)
+        out.append(W.blob_bytes(pre_adj, 5))
         # the precomputed entry points as well (encrypt_precomputed; sign / verify through a precomputed value follow below)
         lib.set_random(b"c19p", 23)
         ct2 = W.encrypt(gt, ex.params, pre=pre)
@@ -527,7 +536,7 @@ def check_scheme(ctx, lib, c):
     t1 = _run_history(ctx, lib, c["h"], c["msg"], c["comp"], False)
     t2 = _run_history(ctx, lib, c["h"], c["msg"], c["comp"], True)
     expect(len(t1) == len(t2), "capi-vs-cpp/wkdibe/transcript-length", "transcripts differ in length")
-    names = ["params", "masterkey"] + ["key%d" % i for i in range(len(t1) - 13)] + ["ciphertext", "decrypt", "decrypt_master", "precomputed", "ciphertext_precomputed", "decrypt_precomputed", "signature_precomputed", "signature", "verdicts", "unmarshal"]
+    names = ["params", "masterkey"] + ["key%d" % i for i in range(len(t1) - 15)] + ["ciphertext", "decrypt", "decrypt_master", "precomputed", "adjust_precomputed_to_prefix", "adjust_precomputed_back", "ciphertext_precomputed", "decrypt_precomputed", "signature_precomputed", "signature", "verdicts", "unmarshal"]
     for i, (a, b) in enumerate(zip(t1, t2)):
         expect(a == b, "capi-vs-cpp/wkdibe/%s" % (names[i] if i < len(names) else str(i)).rstrip("0123456789"), lambda: "C and C++ results differ at transcript item %d (%s)" % (i, names[i] if i < len(names) else "?"))
     # LQ-IBE
